@@ -893,6 +893,9 @@ func (s *scope) interpretFString(f *FString) pyObject {
 
 func (s *scope) interpretSlice(obj pyObject, sl *Slice) pyObject {
 	start := s.interpretSliceExpression(obj, sl.Start, 0)
+	if l, ok := obj.(pyFrozenList); ok {
+		obj = l.pyList // slicing a frozen list gives an ordinary list of the same items
+	}
 	switch t := obj.(type) {
 	case pyList:
 		end := s.interpretSliceExpression(obj, sl.End, newPyInt(len(t)))
@@ -939,8 +942,8 @@ func (s *scope) interpretIdentStatement(stmt *IdentStatement) pyObject {
 		}
 	} else if stmt.Unpack != nil {
 		obj := s.interpretExpression(stmt.Unpack.Expr)
-		l, ok := obj.(pyList)
-		s.Assert(ok, "Cannot unpack type %s", l.Type())
+		l, ok := asList(obj)
+		s.Assert(ok, "Cannot unpack type %s", obj.Type())
 		// This is a little awkward because the first item here is the name of the ident node.
 		s.Assert(len(l) == len(stmt.Unpack.Names)+1, "Wrong number of items to unpack; expected %d, got %d", len(stmt.Unpack.Names)+1, len(l))
 		s.Set(stmt.Name, l[0])
